@@ -144,7 +144,7 @@ fn run_once(f: Tok) -> Vec<Tok> {
                         } else {
                             writer = Some(tokio::spawn(async move { w }));
                         }
-                        if scen == 5 {
+                        if scen == 5 || scen == 7 {
                             // the destination does not read for a while: the whole upload path fills up
                             tokio::time::sleep(Duration::from_millis(STALL_MS)).await;
                         }
@@ -195,7 +195,7 @@ fn run_once(f: Tok) -> Vec<Tok> {
         let Some(ep) = crate::front::start(make, crate::ctxutil::basic_hosts, None).await else {
             return vec![vec![996]];
         };
-        let data = pattern(if scen == 5 { STALL_CAP } else { n_up }, 0);
+        let data = pattern(if scen == 5 || scen == 7 { STALL_CAP } else { n_up }, 0);
         // what the client handed to its transport (scenario 5: counted while it uploads)
         let mut uploaded = data.len();
         let mut back: Vec<u8> = vec![];
@@ -474,6 +474,30 @@ fn run_once(f: Tok) -> Vec<Tok> {
                                 c.drive(Duration::from_millis(20), |_| false).await;
                             }
                         }
+                        7 => {
+                            // like 5, but the client ends its upload (FIN) and resets the stream `n_up` ms behind the FIN:
+                            // the cancellation of a request whose body has been sent to its end
+                            uploaded = 0;
+                            let t0 = tokio::time::Instant::now();
+                            let mut last = t0;
+                            while uploaded < data.len() && last.elapsed() < Duration::from_millis(STALL_QUIET_MS) && t0.elapsed() < Duration::from_millis(STALL_UPLOAD_MS) {
+                                let n = c.send_some(id, &data[uploaded..data.len().min(uploaded + 32 * 1024)]);
+                                if n > 0 {
+                                    uploaded += n;
+                                    last = tokio::time::Instant::now();
+                                } else {
+                                    c.drive(Duration::from_millis(10), |_| false).await;
+                                }
+                            }
+                            // the end of the upload (FIN), and RESET_STREAM behind it
+                            let _ = c.raw_fin(id);
+                            c.drive(Duration::from_millis(n_up as u64), |_| false).await;
+                            c.reset_stream(id, 0x10c);
+                            let deadline = tokio::time::Instant::now() + patience;
+                            while seen.end.load(Ordering::SeqCst) == 0 && tokio::time::Instant::now() < deadline {
+                                c.drive(Duration::from_millis(20), |_| false).await;
+                            }
+                        }
                         6 => {
                             // the upload in DATA frames of `piece` bytes without a pause, and RESET_STREAM right behind the last
                             // of them: the connection lives on
@@ -512,7 +536,7 @@ fn run_once(f: Tok) -> Vec<Tok> {
                     back = st.data.clone();
                 }
             }
-            if scen == 4 || scen == 5 || scen == 6 {
+            if scen == 4 || scen == 5 || scen == 6 || scen == 7 {
                 // the connection stays: what is observed below is the answer to the stream's reset alone
                 let out = finish(&seen, canary, status, &data, uploaded, &back, m_down, end, Some(&mut c)).await;
                 c.close();
